@@ -51,6 +51,7 @@ class LoopSpec:
     unfold: list = field(default_factory=list)      # parameterised definitions instantiated at the loop index
     hints: list = field(default_factory=list)       # Clause: proved at the end of the body (index = this iteration), then assumed
     cases: list = field(default_factory=list)       # expressions (over the iteration's locals) the body obligations are split on
+    pre_hints: list = field(default_factory=list)   # Clause: proved at the START of the body (loop target bound), then assumed
 
 
 @dataclass
@@ -121,6 +122,7 @@ def contract(key, *, props=(), params=None, closure=None, result=None, requires=
                 index=v.get('index'), modifies=list(v.get('modifies', [])),
                 decreases=v.get('decreases'), unfold=list(v.get('unfold', [])),
                 hints=_clauses(v.get('hints', []), props), cases=list(v.get('cases', [])),
+                pre_hints=_clauses(v.get('pre_hints', []), props),
             )
     c = Contract(
         key=key, props=props, params=dict(params or {}), closure=dict(closure or {}),
